@@ -274,7 +274,8 @@ def stats_vectors(tier):
     v = [cw.REF, dict(cw.opts(inline_functions=True), append_version=True),
          cw.opts(original_code_as_comment=True, generated_comments=True, append_version=True),
          cw.opts(inline_functions=True, remove_labels=True, compact=True),
-         cw.opts(use_push_pop_functions=True, remove_labels=True, append_version=True)]
+         cw.opts(use_push_pop_functions=True, remove_labels=True, append_version=True),
+         cw.opts(compact=True), cw.opts(compact=True, generated_comments=True, append_version=True)]     # compact WITHOUT remove_labels
     if tier == "thorough":
         v += [cw.opts(tail_call_optimization=True, compact=True), cw.opts(generated_comments=True, remove_labels=True),
               cw.opts(original_code_as_comment=True, inline_functions=True), cw.opts(append_version=True, compact=True, inline_functions=True)]
@@ -300,6 +301,20 @@ def edge_programs():
     ]
 
 
+def module_stat_programs():
+    """Libraries whose registers belong to no function: module-level state, functions that only touch globals or constants."""
+    H = corpus.HEADER
+    lib_state = (H + "total = 0\npeak = 0\nlast = 0\ndef note():\n    global total, last, peak\n    last = d0.Setting\n    total += 1\n"
+                 "    peak = max(peak, last)\n    db.Setting = peak\n")
+    main1 = H + "from library import st\nna = 0\nwhile True:\n    yield_()\n    st.note()\n    na += 1\n    d1.Setting = na\n"
+    lib_only_vars = H + "seen = 0\ndef bump():\n    global seen\n    seen = seen + d2.Setting\n    d3.Setting = seen\n"
+    main2 = H + "from library import lv\nwhile True:\n    lv.bump()\n    yield_()\n"
+    lib_inl = H + "def twice(xa):\n    return xa * 2\n"
+    main3 = H + "from library import li\nwhile True:\n    d0.Setting = li.twice(d1.Setting)\n    yield_()\n"
+    return [("ms_lib_state_no_locals", {"": main1, "st": lib_state}), ("ms_lib_only_vars", {"": main2, "lv": lib_only_vars}),
+            ("ms_lib_inlined_only", {"": main3, "li": lib_inl})]
+
+
 def check_c17(tier, t0):
     import checks_lang as CL
 
@@ -307,6 +322,8 @@ def check_c17(tier, t0):
     progs = [(n, s) for n, s, _ in CL.pick(CL.all_progs(), tier, 45)]
     progs += [(n, s) for n, s in corpus.family("term")] + edge_programs()
     progs += [(n, s) for n, s in corpus.repo_programs(REPO) if not EXPLICIT_REG.search(main_text(s))]
+    # several source files: the statistics cover the library modules' lines and registers as well
+    progs += [(n, split) for n, split, _ in CL.modules_family()] + module_stat_programs()
     vecs = stats_vectors(tier)
     jobs, meta = [], []
     for n, s in progs:
@@ -322,6 +339,8 @@ def check_c17(tier, t0):
         out = r["result"]
         if not isinstance(out, dict) or "code" not in out:
             nerr += 1
+            if n.startswith("ms_") and v == vecs[0]:
+                print("NOTE: hand-written case %s does not compile on this tree: %s" % (n, str(out)[:200]))
             continue
         code = out["code"]
         missing = [k for k in ("num_lines", "num_bytes", "num_registers") if not isinstance(out.get(k), int)]
